@@ -4,11 +4,11 @@ package main
 
 import (
 	"fmt"
-	"os"
 	"go/constant"
 	"go/token"
 	"go/types"
 	"math/big"
+	"os"
 	"sort"
 	"strings"
 
@@ -207,6 +207,9 @@ func (v *Verifier) VerifyFunction(key string) {
 		label := e.Label
 		if label == "" {
 			label = fmt.Sprint(i + 1)
+		}
+		if !v.clauseSelected(label) {
+			continue
 		}
 		v.addObligation(&Obligation{Name: fc.short + "#post." + label, Kind: "post", Func: key, Assume: final.pc, Goal: t, Expect: "unsat", Src: e.Src, wenv: env})
 	}
